@@ -1,5 +1,185 @@
-"""Engine kx: Kani harnesses injected into a per-run scratch copy of /repo (DESIGN §3)."""
+"""Engine kx: Kani harnesses injected into a per-run scratch copy of /repo (DESIGN §3).
+
+Per run: rsync /repo's working tree (without target/, .git/) to a scratch directory, append the
+`#[cfg(kani)] mod verif_kani_proofs {..}` blocks of /verif/kx/harness/src__<file>.rs to the matching
+source files, run `cargo kani -Z stubbing -Z function-contracts --harness ..`, parse the result per
+harness, delete the scratch copy with its build output.  /repo itself is never touched.
+"""
+import os
+import re
+import shutil
+import subprocess
+import time
+
+HERE = os.path.dirname(os.path.dirname(os.path.abspath(__file__)))
+REPO = os.environ.get("VERIF_REPO", "/repo")
+HARNESS_DIR = os.path.join(HERE, "kx", "harness")
+
+# harness name -> (source file it is appended to, what it proves, complete?)
+HARNESSES = {
+    "from_ip_v4_bep42": ("src/info_hash.rs", "InfoHash::from_ip(v4) passes the BEP42 check for all 2^32 addresses and all random draws", True),
+    "from_ip_v6_bep42": ("src/info_hash.rs", "InfoHash::from_ip(v6) passes the BEP42 check for all addresses and all random draws", True),
+    "lbc_bounds": ("src/info_hash.rs", "leading_bit_count(a,b) <= 160 and == 160 iff a == b, for all ids", True),
+    "lbc_ultrametric": ("src/info_hash.rs", "lbc(a,c) >= min(lbc(a,b), lbc(b,c)); flip_bit(i) yields an id exactly i shared bits away", True),
+    "info_hash_try_from_len": ("src/info_hash.rs", "InfoHash::try_from accepts exactly 20 bytes and keeps them", True),
+    "compact_v4_roundtrip": ("src/compact.rs", "compact IPv4 contact: 4 address bytes + big-endian port, decode(encode(a)) == a for all a", True),
+    "compact_v6_roundtrip": ("src/compact.rs", "compact IPv6 contact: 16 address bytes + big-endian port, decode(encode(a)) == a for all a", True),
+    "compact_decode_total": ("src/compact.rs", "decode_socket_addr is Some iff the length is 6 or 18 (all buffers up to 19 bytes)", True),
+    "tid_bytes": ("src/transaction.rs", "TransactionID is the 8 big-endian bytes of the u64; action id = top 5 bytes, message id = low 3; from_bytes round-trips", True),
+    "tid_from_bytes_len": ("src/transaction.rs", "TransactionID::from_bytes accepts exactly 8 bytes", True),
+    "tid_action_prefix": ("src/transaction.rs", "equal action ids iff equal 5-byte prefixes", True),
+    "token_buffer_v4": ("src/token.rs", "token(v4 ip, secret) = SHA1(4 address octets ++ big-endian secret)", True),
+    "token_buffer_v6": ("src/token.rs", "token(v6 ip, secret) = SHA1(16 address octets ++ big-endian secret)", True),
+    "token_new_len": ("src/token.rs", "Token::new accepts exactly 20 bytes and keeps them", True),
+}
 
 
-def run_harnesses(pid, harnesses, tier, cov, cmds, scratch):
-    return {"violations": [], "inconclusive": ["kx engine not built yet"]}
+def _prepare(scratch):
+    os.makedirs(scratch, exist_ok=True)
+    dst = os.path.join(scratch, "repo")
+    subprocess.run(["rsync", "-a", "--delete", "--exclude", "target", "--exclude", ".git", REPO + "/", dst + "/"], check=True)
+    appended = []
+    for f in sorted(os.listdir(HARNESS_DIR)):
+        if not f.endswith(".rs"):
+            continue
+        src = f.replace("__", "/")
+        target = os.path.join(dst, src)
+        if not os.path.exists(target):
+            raise FileNotFoundError("lost anchor: %s (for harness file %s)" % (src, f))
+        with open(target, "a") as out:
+            out.write(open(os.path.join(HARNESS_DIR, f)).read())
+        appended.append(src)
+    os.makedirs(os.path.join(dst, ".cargo"), exist_ok=True)
+    with open(os.path.join(dst, ".cargo", "config.toml"), "a") as c:
+        c.write("\n[net]\noffline = true\n")
+    return dst, appended
+
+
+def _parse(output):
+    """-> {harness: {status, failed_checks, checks, covers}}"""
+    res = {}
+    cur = None
+    by_thread = {}
+    thread = None
+    for line in output.split("\n"):
+        mt = re.match(r"Thread (\d+): ?(.*)", line)
+        if mt:
+            thread = mt.group(1)
+            line = mt.group(2)
+            cur = by_thread.get(thread)
+        m = re.match(r"Checking harness (\S+?)\.\.\.", line)
+        if m:
+            cur = m.group(1).split("::")[-1]
+            by_thread[thread] = cur
+            res[cur] = {"status": None, "failed": [], "checks": 0, "failed_n": 0, "covers": None, "text": []}
+            continue
+        if cur is None:
+            continue
+        res[cur]["text"].append(line)
+        m = re.match(r"\s*\*\* (\d+) of (\d+) failed", line)
+        if m:
+            res[cur]["failed_n"], res[cur]["checks"] = int(m.group(1)), int(m.group(2))
+        m = re.match(r"\s*\*\* (\d+) of (\d+) cover properties satisfied", line)
+        if m:
+            res[cur]["covers"] = (int(m.group(1)), int(m.group(2)))
+        m = re.match(r"Failed Checks: (.*)", line)
+        if m:
+            res[cur]["failed"].append(m.group(1))
+        m = re.match(r"VERIFICATION:- (\w+)", line)
+        if m:
+            res[cur]["status"] = m.group(1)
+    return res
+
+
+def run_harnesses(pid, harnesses, tier, cov, cmds, scratch_root):
+    out = {"violations": [], "inconclusive": []}
+    scratch = os.path.join(scratch_root, "kx-%s-%d" % (pid, os.getpid()))
+    t0 = time.time()
+    try:
+        try:
+            dst, appended = _prepare(scratch)
+        except (FileNotFoundError, subprocess.CalledProcessError) as e:
+            out["inconclusive"].append("kx: %s" % e)
+            return out
+        cmd = ["cargo", "kani", "-Z", "stubbing", "-Z", "function-contracts", "-j", "8", "--output-format", "terse"]
+        for h in harnesses:
+            cmd += ["--harness", h]
+        env = dict(os.environ, CARGO_NET_OFFLINE="true")
+        try:
+            r = subprocess.run(cmd, cwd=dst, capture_output=True, text=True, timeout=3000, env=env)
+        except subprocess.TimeoutExpired:
+            out["inconclusive"].append("kx: cargo kani timeout")
+            return out
+        cmds.append("CARGO_NET_OFFLINE=true " + " ".join(cmd) + "   # in a scratch copy of /repo with kx/harness/* appended")
+        text = r.stdout + "\n" + r.stderr
+        res = _parse(text)
+        if not res:
+            # build failure in the scratch copy: renamed item / changed signature -> inconclusive
+            out["inconclusive"].append("kx: kani produced no harness result (compile error in harness against the current tree?): " + text[-1500:])
+            return out
+        if "CBMC 6.11 / CaDiCaL (Kani 0.68)" not in cov["back_ends"]:
+            cov["back_ends"].append("CBMC 6.11 / CaDiCaL (Kani 0.68)")
+        for h in harnesses:
+            hr = res.get(h)
+            src, what, complete = HARNESSES[h]
+            if hr is None or hr["status"] is None:
+                out["inconclusive"].append("kx: no result for harness %s" % h)
+                continue
+            cov["obligations"] += max(hr["checks"], 1)
+            entry = {"harness": h, "appended_to": src, "proves": what, "checks": hr["checks"], "failed": hr["failed_n"],
+                     "status": hr["status"], "covers": hr["covers"], "complete": complete,
+                     "bound": "loops bounded by constants of the code (20 id bytes, 4/8/16 address bytes), unwinding assertions on; inputs fully symbolic"}
+            cov["kani_harnesses"].append(entry)
+            if hr["status"] == "SUCCESSFUL":
+                cov["discharged"] += max(hr["checks"], 1)
+                if hr["covers"] and hr["covers"][0] < hr["covers"][1]:
+                    out["inconclusive"].append("kx vacuity guard: cover! unreachable in %s" % h)
+                if len(cov["samples"]) < 8:
+                    cov["samples"].append({"harness": h, "obligation": what, "cbmc_checks": hr["checks"]})
+            else:
+                unwinding = [f for f in hr["failed"] if "unwinding assertion" in f]
+                real = [f for f in hr["failed"] if "unwinding assertion" not in f]
+                if unwinding and not real:
+                    out["inconclusive"].append("kx: unwinding bound too small for %s on the current tree" % h)
+                    continue
+                cov["discharged"] += max(hr["checks"] - hr["failed_n"], 0)
+                concrete = _playback(dst, h, env)
+                out["violations"].append({
+                    "obligation": "kx::%s#%s" % (h, (real[0] if real else "failed")[:80]),
+                    "message": "; ".join(real)[:400] or "verification failed",
+                    "engine": "kani", "rendered": "\n".join(hr["text"][-40:]), "changed": "", "concrete": concrete})
+        cov.setdefault("kani_wall_s", 0)
+        cov["kani_wall_s"] = round(time.time() - t0, 1)
+    finally:
+        shutil.rmtree(scratch, ignore_errors=True)
+    return out
+
+
+def _playback(dst, harness, env):
+    """re-run the failing harness with concrete playback, then replay the generated test natively"""
+    try:
+        cmd = ["cargo", "kani", "-Z", "stubbing", "-Z", "function-contracts", "-Z", "concrete-playback",
+               "--concrete-playback=inplace", "--harness", harness, "--output-format", "terse"]
+        r = subprocess.run(cmd, cwd=dst, capture_output=True, text=True, timeout=1500, env=env)
+        txt = r.stdout + r.stderr
+        m = re.search(r"(kani_concrete_playback_\w+)", txt)
+        if not m:
+            return None
+        test = m.group(1)
+        # locate the generated test text
+        body = ""
+        for root, _, files in os.walk(os.path.join(dst, "src")):
+            for f in files:
+                p = os.path.join(root, f)
+                s = open(p).read()
+                k = s.find("fn " + test)
+                if k >= 0:
+                    e = s.find("\n    }\n", k)
+                    body = s[max(0, k - 12):(e + 6 if e > 0 else k + 3000)]
+        r2 = subprocess.run(["cargo", "kani", "playback", "-Z", "concrete-playback", "--", test],
+                            cwd=dst, capture_output=True, text=True, timeout=1500, env=env)
+        keep = [l for l in (r2.stdout + r2.stderr).split("\n") if re.search(r"^test |panicked|assertion|FAILED|test result|failures:|Running", l)]
+        native = "\n".join(keep)[-2500:]
+        return "generated test:\n%s\n\nnative replay against the real code (cargo kani playback):\n%s" % (body, native)
+    except Exception as e:      # replay is best effort
+        return "concrete playback unavailable: %s" % e
